@@ -216,3 +216,21 @@ CHECKS["C14"] = dict(
          "re-proved to lie far inside the margin each run (library_tolerances_below_margin).",
     technique="Lean 4 theorems over an exact ordered-field model (executed at Q as the oracle) + differential correspondence with Lean-evaluated verdicts",
 )
+
+CHECKS["C04"] = dict(
+    text=("Lean theorem UxVerif.C04.provenance_agree (+ reports_agree): for EVERY consistent source (any of the 3x4x4 provenance "
+          "combinations of node / edge-centre / face-centre coordinates, either longitude convention, any radius) and EVERY history of "
+          "accesses of the lazy coordinate properties (the six getters in any order and repetition, normalize_cartesian_coordinates() "
+          "anywhere; induction over the access list) everything the model of coordinates.py/grid.py returns has longitudes in "
+          "[-180,180], latitudes in [-90,90], and (lon,lat) and (x,y,z) denote the same direction up to the 1e-8 pole snap; xyz the "
+          "source did not supply is exactly unit; unsupplied centres are the normalised corner means (edge centre = arc midpoint, "
+          "edge_mid_equidistant); conversion laws xyz_unit, normalize_unit/dir/idem, xyz_of_lonlat_of_xyz, mod-2pi/±180 periodicity, "
+          "deg_range over Q. Angles carry Deg/Rad types; the snapshot's algorithm is refuted by proved witnesses (asis_*; repaired by "
+          "fixes bd9a8bfc, dae7aac7, 72e92fe3). Tie: the same generic definitions run at Float in the driver against the real Grid on "
+          "generated sources x histories (1e-12 on directions; all 6! access orders in thorough) and the Lean Bool spec (proved to decide "
+          "the Prop at tolerance 0) judges the implementation's reports, also on SCRIP/Exodus/GEOS-CS/MPAS/UGRID sample files."),
+    note=_TB + "Modelled, not verified: IEEE rounding, libm vs NumPy (compared at 1e-12), xarray storage, that readers deliver "
+         "consistent sources; positions within 1e-10 of the snap threshold are dropped; normalize_cartesian_coordinates() is judged on "
+         "directions only (its node-only _check_normalization leaves stored centre vectors un-normalised: recorded as a note).",
+    technique="Lean 4 theorem over a hand model (provenance state machine, induction over histories) + differential correspondence with Lean-evaluated spec",
+)
